@@ -171,3 +171,60 @@ Proof.
     rewrite ?wdot_nil_w, ?wdot_nil_x, ?wdot_nil_y, ?wdot_c; try lra.
   rewrite IH; numR; lra.
 Qed.
+
+(* ------------------------------------------------------------------------- *)
+(* identities used by the Moreau-decomposition proofs *)
+Lemma vadd_assoc (a b c : Rvec) : vadd (vadd a b) c = vadd a (vadd b c).
+Proof.
+  revert b c; induction a as [|p a IH]; intros [|q b] [|r c]; unfold vadd in *; cbn [vmap2]; try reflexivity.
+  rewrite IH; numR; f_equal; ring.
+Qed.
+Lemma vadd_comm (a b : Rvec) : vadd a b = vadd b a.
+Proof.
+  revert b; induction a as [|p a IH]; intros [|q b]; unfold vadd in *; cbn [vmap2]; try reflexivity.
+  rewrite IH; numR; f_equal; ring.
+Qed.
+Lemma vadd_vsub_cancel (t x : Rvec) : length t = length x -> vadd t (vsub x t) = x.
+Proof.
+  revert x; induction t as [|p t IH]; intros [|q x] Hl; cbn in Hl; try lia; [reflexivity|].
+  unfold vadd, vsub in *; cbn [vmap2]. rewrite IH by lia. numR. f_equal. ring.
+Qed.
+Lemma vsub_vadd_cancel (x u : Rvec) : length u = length x -> vadd (vsub x u) u = x.
+Proof. intros. rewrite vadd_comm. apply vadd_vsub_cancel. assumption. Qed.
+Lemma vscal_vadd a (u v : Rvec) : vscal a (vadd u v) = vadd (vscal a u) (vscal a v).
+Proof.
+  revert v; induction u as [|p u IH]; intros [|q v]; unfold vadd, vscal in *; cbn [vmap2 map]; try reflexivity.
+  rewrite IH; numR; f_equal; ring.
+Qed.
+Lemma vscal_vsub a (u v : Rvec) : vscal a (vsub u v) = vsub (vscal a u) (vscal a v).
+Proof.
+  revert v; induction u as [|p u IH]; intros [|q v]; unfold vsub, vscal in *; cbn [vmap2 map]; try reflexivity.
+  rewrite IH; numR; f_equal; ring.
+Qed.
+Lemma vadd_vsub_same (p x : Rvec) : length p = length x -> vadd p (vsub x p) = x.
+Proof. apply vadd_vsub_cancel. Qed.
+
+(* generic Moreau-by-definition: p + s (x/s - p/s) = x *)
+Lemma moreau_by_def (p x : Rvec) s : s <> 0 -> length p = length x ->
+  vadd p (vscal s (vsub (vscal (1 / s) x) (vscal (1 / s) p))) = x.
+Proof.
+  intros Hs Hl. rewrite vscal_vsub, !vscal_inv_r by assumption. apply vadd_vsub_cancel. assumption.
+Qed.
+
+(* pointwise Moreau: f a + s g(k a) = a entrywise *)
+Lemma moreau_pointwise (f g : R -> R) s k (x : Rvec) :
+  (forall a, f a + s * g (k * a) = a) ->
+  vadd (map f x) (vscal s (map g (vscal k x))) = x.
+Proof.
+  intros H. induction x as [|a x IH]; [reflexivity|].
+  unfold vadd, vscal in *. cbn [map vmap2]. rewrite IH. numR. f_equal. apply H.
+Qed.
+
+Lemma vadd_app (a1 a2 b1 b2 : Rvec) : length a1 = length b1 ->
+  vadd (a1 ++ a2) (b1 ++ b2) = vadd a1 b1 ++ vadd a2 b2.
+Proof.
+  revert b1; induction a1 as [|p a1 IH]; intros [|q b1] Hl; cbn in Hl; try lia; [reflexivity|].
+  unfold vadd in *. cbn [app vmap2]. rewrite IH by lia. reflexivity.
+Qed.
+Lemma vscal_app a (u v : Rvec) : vscal a (u ++ v) = vscal a u ++ vscal a v.
+Proof. unfold vscal. apply map_app. Qed.
